@@ -43,7 +43,7 @@ import (
 
 func init() {
 	evid.RegisterReplay("C06", replay)
-	evid.Register(&evid.Check{ID: "C06", Level: "exploration", Run: run, QuickBudget: 150 * time.Second, ThoroughBudget: 14 * time.Minute})
+	evid.Register(&evid.Check{ID: "C06", Level: "exploration", Run: run, QuickBudget: 300 * time.Second, ThoroughBudget: 20 * time.Minute})
 }
 
 type versionInfo struct {
@@ -119,6 +119,20 @@ func (e *env) observe(c cfg, image, against bufimage.Image) observation {
 		return observation{ParseErr: err.Error()}
 	}
 	mcs := y.ModuleConfigs()
+	if len(c.Modules) > 0 {
+		// a workspace of several modules: the configuration is judged for the module in ModuleDir
+		// (ModuleConfigs() is sorted by directory, not in document order: pick by DirPath)
+		var mine []bufconfig.ModuleConfig
+		for _, mc := range mcs {
+			if mc.DirPath() == c.ModuleDir {
+				mine = append(mine, mc)
+			}
+		}
+		if len(mcs) != len(c.Modules) || len(mine) != 1 {
+			return observation{ParseErr: fmt.Sprintf("expected %d module configs and one for %s, got %d and %d", len(c.Modules), c.ModuleDir, len(mcs), len(mine))}
+		}
+		mcs = mine
+	}
 	if len(mcs) != 1 {
 		return observation{ParseErr: fmt.Sprintf("expected one module config, got %d", len(mcs))}
 	}
@@ -240,7 +254,7 @@ func replay(raw json.RawMessage) (string, bool) {
 			}
 		} else if c.Type == "lint" {
 			var ok bool
-			if c.ModuleDir != "" {
+			if c.ModuleDir != "" && len(c.Modules) == 0 {
 				sc, ok = e.lintSceneIn(c.ModuleDir, vc.Comments, []string{c.Version}, nil)
 			} else {
 				sc, ok = e.lintScene(vc.Comments, []string{c.Version}, nil)
@@ -365,6 +379,8 @@ func run(r *evid.Run) {
 		{"J_check_plugins", func() { partJ(e) }},
 		{"K_image_derivations", func() { partK(e, vnames) }},
 		{"L_deprecated_ids_on_annotations", func() { partL(e) }},
+		{"M_multi_module_workspaces", func() { partM(e) }},
+		{"N_file_groups_over_target_sets", func() { partN(e, vnames) }},
 		{"A_selection", func() { partA(e) }},
 		{"D_breaking_grid", func() { partD(e, vnames) }},
 		{"B_lint_grid", func() { partB(e, vnames) }},
